@@ -455,8 +455,8 @@ template <class P> void kindCompose(pbt::Reader& g, pbt::Ctx& ctx) {
     if (!judge<P>(ctx, "M:InverseRotation::reexpressSymMat33", rr::maxAbsDiff(toM3((~R).reexpressSymMat33(Y)), rr::tr(Rm) * Yl * Rm), 16 * eps * ys)) return;
     // comparison queries
     LD mad = rr::maxAbsDiff(Rm, Sm);
-    if (!ctx.check((LD)R.getMaxAbsDifferenceInRotationElements(S) == (LD)(P)mad, "getMaxAbsDifferenceInRotationElements wrong: " + pbt::str((double)R.getMaxAbsDifferenceInRotationElements(S)) + " vs " + pbt::str((double)mad))) return;
-    if (mad > 0) if (!ctx.check(R.areAllRotationElementsSameToEpsilon(S, (P)(mad * 2)) && !R.areAllRotationElementsSameToEpsilon(S, (P)(mad / 2)), "areAllRotationElementsSameToEpsilon inconsistent with the max difference")) return;
+    if (!judge<P>(ctx, "M:getMaxAbsDifferenceInRotationElements", std::fabs((LD)R.getMaxAbsDifferenceInRotationElements(S) - mad), eps * (mad + eps))) return;   // the library rounds each a-b once
+    if (mad > 0) if (!ctx.check(R.areAllRotationElementsSameToEpsilon(S, (P)(mad * 2)) && (mad < 100 * eps || !R.areAllRotationElementsSameToEpsilon(S, (P)(mad / 2))), "areAllRotationElementsSameToEpsilon inconsistent with the max difference")) return;
     if (!ctx.check(R.areAllRotationElementsSameToMachinePrecision(R) && R.isSameRotationToWithinAngleOfMachinePrecision(R), "a rotation is not the same as itself")) return;
     LD ang = rr::rotAngle(rr::tr(Rm) * Sm);     // pointing error between R and S
     if (ang > 1e4L * eps) {
@@ -634,7 +634,7 @@ template <class P> struct CanDivideByInverse<P, std::void_t<decltype(std::declva
 
 pbt::Config config() {
     pbt::Config c; c.prop = "C27"; c.K = 40; c.minUnits = 1;
-    c.quick = {40000, 400000, 12, 8}; c.thorough = {200000, 3000000, 16, 60};
+    c.quick = {20000, 400000, 12, 8}; c.thorough = {100000, 3000000, 16, 60};
     c.rule = "tape -> precision (float/double) + 1..n independent units; unit = API family {three-angle sequence from angles, general rotation -> angles -> rotation, two-angle, one-angle, angle-axis, quaternion, one/two-axes construction, approximate Mat33, Rotation/InverseRotation composition, Transform/InverseTransform, UnitVec/UnitRow, CoordinateAxis}; angles from {uniform, near 0, near +-pi/2, near +-pi, exact P(k pi/2), several turns}; rotations from {uniform quaternion, near identity, near pi, 24 cube rotations, coordinate-axis, Euler-lock neighbourhood 1e-1..1e-17}. Non-trivial: any unit other than a body-XYZ sequence / x-axis rotation with generic angles.";
     c.assumptions = {"long double reference algebra (gen/rotref.h) is exact enough to judge float/double results", "rotations handed to the library as 'trusted' matrices are reference rotations rounded to P (orthonormal to eps/2 per element)", "Euler round-trip accuracy is demanded as 64 eps (1+1/d), capped at 64 sqrt(eps) (d = distance from the coordinate singularity)"};
     c.directed.push_back({"euler-near-lock-noisy-rotation", "euler-near-lock-roundtrip", [](pbt::Ctx& ctx) {
